@@ -18,6 +18,7 @@ import (
 	"sort"
 	"strconv"
 	"strings"
+	"sync"
 	"testing/iotest"
 	"unicode"
 
@@ -34,7 +35,7 @@ var p19 = []string{"C19"}
 var p18 = []string{"C18"}
 
 func propsOfCase(c string) []string {
-	if strings.HasPrefix(c, "read ") {
+	if strings.HasPrefix(c, "read ") || strings.HasPrefix(c, "readseq ") {
 		return p18
 	}
 	return p19
@@ -135,6 +136,25 @@ func mfNames() []string {
 		}
 	}
 	rec("", 0)
+	return names
+}
+
+// mfDottedExts: several dots, dots in odd places, OS/arch tokens after the first dot (the name ends at the FIRST dot).
+var mfDottedExts = []string{".a.go", ".linux.go", "..go", ".", ".go.", ".x_windows.go", ".tar.gz", ".x_test.go", "._arm64"}
+
+// mfDottedNames: 1..2 segments x mfDottedExts.
+func mfDottedNames() []string {
+	var names []string
+	for _, a := range mfSegs {
+		for _, e := range mfDottedExts {
+			names = append(names, a+e)
+		}
+		for _, b := range mfSegs {
+			for _, e := range mfDottedExts {
+				names = append(names, a+"_"+b+e)
+			}
+		}
+	}
 	return names
 }
 
@@ -284,7 +304,7 @@ func genBuildLine(r *rand.Rand) string {
 }
 
 var sbPlainLines = []string{"// hello", "//", "// Copyright 2018", "// +buildx foo", "// + build foo", "//go:build ignore", "// build +build ignore", "//+builds", "// +Build ignore", "// +build ignore"}
-var sbBlankLines = []string{"", "", "", "", "  ", "\t", "\v", " \t ", "", "", "", "", "", "", "", "", "", "", "", "", "", "", "", "", "", "", "", "", "", "", "\u00a0 "}
+var sbBlankLines = []string{"", "", "", "", "  ", "\t", "\v", " \t ", "\f", "\v\f ", "\r", "", "", "", "", "", "", "", "", "", "", "", "", "", "", "", "", "", "", "", "", "", "", "\u00a0 "}
 var sbEnders = []string{"package p", "// Package p is documented.\npackage p", "/* block */\npackage p", "/* +build ignore */\n\npackage p", "import \"x\"", "x", "package p\n\n// +build ignore\n\nvar x int", "/*\n// +build ignore\n\n*/\npackage p", "\"// +build ignore\"\n"}
 
 // genShouldBuild builds a file start: 0–4 comment lines (+build lines among them), blank lines placed
@@ -329,6 +349,16 @@ func genShouldBuild(r *rand.Rand) []byte {
 		s += nl
 	}
 	return []byte(s)
+}
+
+// hasFFVTBlankLine: some line consists of white space only and holds a form feed or a vertical tab.
+func hasFFVTBlankLine(c []byte) bool {
+	for _, l := range bytes.Split(c, []byte("\n")) {
+		if bytes.ContainsAny(l, "\f\v") && len(bytes.TrimSpace(l)) == 0 {
+			return true
+		}
+	}
+	return false
 }
 
 func genSBTagSets(r *rand.Rand) [][]string {
@@ -550,6 +580,8 @@ func runC19(res *corr.Result, r *rand.Rand, tier, model string) int {
 	nontrivial := 0
 	// ---- MatchFile, exhaustive
 	names := mfNames()
+	nPlain := len(names)
+	names = append(names, mfDottedNames()...)
 	sets := mfTagSets()
 	encSets := encTagSets(sets)
 	cases := make([]string, len(names))
@@ -591,12 +623,18 @@ func runC19(res *corr.Result, r *rand.Rand, tier, model string) int {
 		if anyFalse {
 			nontrivial += len(sets)
 			res.Distribution["matchfile-name-with-significant-suffix"]++
+			if strings.Count(n, ".") > 1 {
+				res.Distribution["matchfile-name-with-several-dots-and-significant-suffix"]++
+			}
+		}
+		if strings.Count(n, ".") > 1 {
+			res.Distribution["matchfile-name-with-several-dots"]++
 		}
 	}
 	res.Distribution["matchfile-names"] = len(names)
 	res.Distribution["matchfile-tagsets"] = len(sets)
 	res.Exhaustive = true
-	res.Extra["exhaustive_spaces"] = []string{fmt.Sprintf("MatchFile: all names of 1..4 '_'-joined segments from %q x extensions %q (%d names) x all %d subsets of %q plus {\"*\"}", mfSegs, mfExts, len(names), 1<<len(mfTagVocab), mfTagVocab)}
+	res.Extra["exhaustive_spaces"] = []string{fmt.Sprintf("MatchFile: all names of 1..4 '_'-joined segments from %q x extensions %q (%d names), and all names of 1..2 such segments x %q (%d names), x all %d subsets of %q plus {\"*\"}", mfSegs, mfExts, nPlain, mfDottedExts, len(names)-nPlain, 1<<len(mfTagVocab), mfTagVocab)}
 	res.Samples = append(res.Samples, map[string]string{"case": cases[len(cases)/3], "model": out[len(cases)/3]})
 
 	// ---- ShouldBuild, generated
@@ -673,6 +711,16 @@ func runC19(res *corr.Result, r *rand.Rand, tier, model string) int {
 		}
 		if bytes.Contains(c, []byte("\r\n")) {
 			res.Distribution["shouldbuild-crlf"]++
+		}
+		if nb > 0 && hasFFVTBlankLine(c) {
+			res.Distribution["shouldbuild-with-formfeed/vtab-blank-line"]++
+		}
+		if nb > 0 && bytes.Contains(c, []byte("!linux")) {
+			for _, ts := range tsets[i] {
+				if tm := tagMap(ts); tm["android"] && !tm["linux"] && !tm["*"] {
+					res.Distribution["shouldbuild-negated-linux-under-android-without-linux"]++
+				}
+			}
 		}
 	}
 	res.Distribution["shouldbuild-contents"] = len(contents)
@@ -792,7 +840,7 @@ type hgen struct {
 
 func (g *hgen) pick(ss ...string) string { return ss[g.r.Intn(len(ss))] }
 
-var commentBodies = []string{"", " c", " import \"fake\"", " `", " \"", " /* ", " é世", " +build ignore", "*", " a * b / c", "/", " package q", "**", " (", " )"}
+var commentBodies = []string{"", " c", " import \"fake\"", " `", " \"", " /* ", " é世", " +build ignore", "*", " a * b / c", "/", " package q", "**", " (", " )", "***", "* *", " **", "/ *", "À"}
 
 func (g *hgen) lineComment() string { return "//" + g.pick(commentBodies...) + "\n" }
 func (g *hgen) blockComment(multiline bool) string {
@@ -860,7 +908,8 @@ func (g *hgen) term() string {
 	return pre + t + post
 }
 
-var identPool = []string{"p", "main", "imports", "x1", "_x", "π", "世界", "P_2", "i", "importx", "packagex", "imp", "é"}
+// π (cf 80), À (c3 80), 一 (e4 b8 80), aĀb (c4 80), Ѐ (d0 80): UTF-8 encodings with a 0x80 byte (the lowest non-ASCII byte value)
+var identPool = []string{"p", "main", "imports", "x1", "_x", "π", "世界", "P_2", "i", "importx", "packagex", "imp", "é", "À", "一", "aĀb", "Ѐ"}
 var pathPool = []string{"a", "fmt", "os/exec", "github.com/x/y-z", "a.b/c_d", "é/世", "C", "x~y", "import", "a+b", "golang.org/x/tools/go/packages"}
 
 func (g *hgen) pathLit() string {
@@ -1274,6 +1323,254 @@ func ioErrOracle(res *corr.Result, d []byte, n int) {
 	}()
 }
 
+// ---------------------------------------------------------------- C18: history oracle (a result must not change after the call returned)
+//
+// "returns only bytes read from the input": the slice ReadImports hands back (and the import literals it
+// appended) are the caller's; scanFiles passes them on to ShouldBuild / strconv.Unquote, other callers keep
+// them.  A result that is later overwritten by a call on another file (storage recycled through a pool, a
+// package-level scratch buffer, strings made from such a buffer without copying) no longer holds bytes of
+// its own input.  The oracle runs short sequences of ReadImports / ReadComments calls, keeps every result
+// WITHOUT copying it next to a private copy taken at once, and compares the two after the later calls
+// of the sequence - first from one goroutine (deterministic), then while several goroutines run the same
+// calls concurrently.  A case is `readseq <item>,<item>,... <lanes>` with item = <hex input>:<mode>,
+// mode 0/1 = ReadImports(reportSyntaxError=false/true), c = ReadComments.
+//
+// Only changes of ReadImports results are violations (the property speaks of ReadImports); ReadComments
+// calls take part as later calls, and a change of one of their results is recorded as an observation.
+
+type seqItem struct {
+	d    []byte
+	mode byte // '0', '1', 'c'
+}
+
+// keptRead is one call's result: the very slice / list that was returned, and private copies.
+type keptRead struct {
+	pos, pass int
+	item      seqItem
+	buf       []byte
+	bufCopy   []byte
+	imps      []string
+	impsCopy  []string
+	errKind   string
+	panicked  bool
+}
+
+func cloneStr(s string) string { return string(append([]byte(nil), s...)) }
+
+func callKeep(it seqItem, pos, pass int) (k keptRead) {
+	k.pos, k.pass, k.item = pos, pass, it
+	defer func() {
+		if p := recover(); p != nil {
+			k = keptRead{pos: pos, pass: pass, item: it, panicked: true, errKind: "panic"}
+		}
+	}()
+	var buf []byte
+	var imps []string
+	var err error
+	if it.mode == 'c' {
+		buf, err = imports.ReadComments(bytes.NewReader(it.d))
+	} else {
+		buf, err = imports.ReadImports(bytes.NewReader(it.d), it.mode == '1', &imps)
+	}
+	k.buf, k.imps, k.errKind = buf, imps, errKind(err)
+	k.bufCopy = append([]byte(nil), buf...)
+	k.impsCopy = make([]string, len(imps))
+	for i, s := range imps {
+		k.impsCopy[i] = cloneStr(s)
+	}
+	return k
+}
+
+// changed: "" while the kept result still equals its copy.
+func (k *keptRead) changed() string {
+	if !bytes.Equal(k.buf, k.bufCopy) {
+		off := 0
+		for off < len(k.buf) && k.buf[off] == k.bufCopy[off] {
+			off++
+		}
+		lo, hi := max(0, off-8), min(len(k.buf), off+24)
+		return fmt.Sprintf("the %d bytes returned differ from what they were when the call returned, first at offset %d: then %q, now %q", len(k.buf), off, k.bufCopy[lo:hi], k.buf[lo:hi])
+	}
+	if len(k.imps) != len(k.impsCopy) {
+		return "the import list changed its length"
+	}
+	for i := range k.imps {
+		if k.imps[i] != k.impsCopy[i] {
+			return fmt.Sprintf("import literal #%d was %q when the call returned, now %q", i, k.impsCopy[i], k.imps[i])
+		}
+	}
+	return ""
+}
+
+func encSeq(seq []seqItem) string {
+	ss := make([]string, len(seq))
+	for i, it := range seq {
+		ss[i] = corr.Hx(it.d) + ":" + string(it.mode)
+	}
+	return strings.Join(ss, ",")
+}
+
+func seqCase(seq []seqItem, lanes int) string {
+	return "readseq " + encSeq(seq) + " " + strconv.Itoa(lanes)
+}
+
+func decSeqCase(c string) (seq []seqItem, lanes int, ok bool) {
+	defer func() {
+		if recover() != nil {
+			ok = false
+		}
+	}()
+	f := strings.Split(c, " ")
+	if len(f) != 3 || f[0] != "readseq" {
+		return nil, 0, false
+	}
+	for _, s := range strings.Split(f[1], ",") {
+		i := strings.IndexByte(s, ':')
+		if i < 0 || len(s) != i+2 || strings.IndexByte("01c", s[i+1]) < 0 {
+			return nil, 0, false
+		}
+		seq = append(seq, seqItem{corr.Unhx(s[:i]), s[i+1]})
+	}
+	lanes, err := strconv.Atoi(f[2])
+	return seq, lanes, err == nil && lanes >= 0 && lanes <= 16
+}
+
+// historyPasses: the sequence is run this many times in a row before the kept results are compared, so
+// that a replay in a fresh process meets recycled storage that has already grown to its final size.
+const historyPasses = 3
+
+type historyVerdict struct {
+	what, class     string // violation ("" = none)
+	culprit         int    // sequence position of the changed result
+	commentsChanged bool
+	calls           int
+}
+
+func describeItem(k *keptRead) string {
+	fn := "ReadImports(reportSyntaxError=" + boolStr(k.item.mode == '1') + ")"
+	if k.item.mode == 'c' {
+		fn = "ReadComments"
+	}
+	return fmt.Sprintf("%s on item #%d of the sequence (%d input bytes, run %d of %d)", fn, k.pos, len(k.item.d), k.pass+1, historyPasses)
+}
+
+// firstChanged looks through kept results; ReadComments results only set the flag.
+func firstChanged(kept []keptRead, v *historyVerdict, when string) bool {
+	for i := range kept {
+		k := &kept[i]
+		ch := k.changed()
+		if ch == "" {
+			continue
+		}
+		if k.item.mode == 'c' {
+			v.commentsChanged = true
+			continue
+		}
+		v.what = "result of " + describeItem(k) + " changed " + when + ": " + ch + " (a result must hold bytes read from its own input; it aliases storage reused by other calls)"
+		v.class = "result-aliased"
+		v.culprit = k.pos
+		return true
+	}
+	return false
+}
+
+// historyRun runs the sequence (historyPasses times, one goroutine), compares; then, with lanes > 0, lets
+// that many goroutines run the same calls (each starting at another item) and compares again: the results
+// kept by this goroutine, the results kept by each lane, and each lane's results against the sequential
+// ones for the same item (ReadImports is a function of its input alone).
+func historyRun(seq []seqItem, lanes int) (v historyVerdict) {
+	var kept []keptRead
+	for pass := 0; pass < historyPasses; pass++ {
+		for i, it := range seq {
+			kept = append(kept, callKeep(it, i, pass))
+		}
+	}
+	v.calls = len(kept)
+	if firstChanged(kept, &v, "after the later calls of the sequence (single goroutine)") {
+		return v
+	}
+	if lanes <= 0 {
+		return v
+	}
+	var wg sync.WaitGroup
+	lv := make([]historyVerdict, lanes)
+	for l := 0; l < lanes; l++ {
+		wg.Add(1)
+		go func(l int) {
+			defer wg.Done()
+			var own []keptRead
+			for pass := 0; pass < historyPasses; pass++ {
+				for i := range seq {
+					pos := (i + l + 1) % len(seq)
+					own = append(own, callKeep(seq[pos], pos, pass))
+					if i%2 == l%2 {
+						runtime.Gosched()
+					}
+				}
+			}
+			if firstChanged(own, &lv[l], fmt.Sprintf("while %d goroutines ran the sequence concurrently (result kept by one of them)", lanes)) {
+				return
+			}
+			for i := range own {
+				k, ref := &own[i], &kept[own[i].pos] // first sequential run of the same item
+				if k.item.mode == 'c' {
+					continue
+				}
+				if k.errKind != ref.errKind || !bytes.Equal(k.bufCopy, ref.bufCopy) || strings.Join(k.impsCopy, "\x00") != strings.Join(ref.impsCopy, "\x00") {
+					lv[l].what = fmt.Sprintf("%s gives another result when %d goroutines run the sequence concurrently than when called alone: %d bytes, imports %q, error %s; alone %d bytes, imports %q, error %s",
+						describeItem(k), lanes, len(k.bufCopy), k.impsCopy, k.errKind, len(ref.bufCopy), ref.impsCopy, ref.errKind)
+					lv[l].class = "concurrent-result-differs"
+					lv[l].culprit = k.pos
+					return
+				}
+			}
+		}(l)
+	}
+	wg.Wait()
+	v.calls += lanes * len(kept)
+	if firstChanged(kept, &v, fmt.Sprintf("while %d goroutines ran the sequence concurrently", lanes)) {
+		return v
+	}
+	for l := range lv {
+		v.commentsChanged = v.commentsChanged || lv[l].commentsChanged
+		if lv[l].what != "" && v.what == "" {
+			v.what, v.class, v.culprit = lv[l].what, lv[l].class, lv[l].culprit
+		}
+	}
+	return v
+}
+
+// historyOracle runs one sequence and reports; on a failure of the deterministic (single goroutine) part it
+// first looks for a two-item sequence that fails as well, to report the shorter case.
+func historyOracle(res *corr.Result, seq []seqItem, lanes int, shrink bool) bool {
+	res.OracleChecked["C18"]++
+	v := historyRun(seq, lanes)
+	res.Evaluations += v.calls
+	if v.commentsChanged {
+		res.Distribution["history-readcomments-result-changed(observation-only)"]++
+		if res.Distribution["history-readcomments-result-changed(observation-only)"] == 1 {
+			res.Observations = append(res.Observations, "a slice returned by ReadComments changed after later calls (not a C18 violation by itself: the property speaks of ReadImports): "+seqCase(seq, lanes))
+		}
+	}
+	if v.what == "" {
+		return true
+	}
+	if shrink && v.class == "result-aliased" && len(seq) > 2 {
+		for j := range seq {
+			if j == v.culprit {
+				continue
+			}
+			pair := []seqItem{seq[v.culprit], seq[j]}
+			if w := historyRun(pair, 0); w.class == "result-aliased" {
+				res.Violate("C18", seqCase(pair, 0), w.what, w.class)
+				return false
+			}
+		}
+	}
+	res.Violate("C18", seqCase(seq, lanes), v.what, v.class)
+	return false
+}
+
 // realGoFiles lists .go files under $VERIF_REPO (default /repo) and, in the thorough tier, under GOROOT/src,
 // in sorted order (deterministic); testdata directories included: they hold odd but legal headers.
 func realGoFiles(tier string) []string {
@@ -1308,6 +1605,92 @@ func realGoFiles(tier string) []string {
 	}
 	sort.Strings(files)
 	return files
+}
+
+// runHistory: the history oracle over sequences drawn from the inputs of this run, then the long-range check.
+func runHistory(res *corr.Result, r *rand.Rand, tier string, n int, input func(int) []byte, longKept []keptRead) {
+	windows := 600
+	if tier == "thorough" {
+		windows = 6000
+	}
+	pickMode := func() byte {
+		switch k := r.Intn(10); {
+		case k < 5:
+			return '0'
+		case k < 8:
+			return '1'
+		}
+		return 'c'
+	}
+	for w := 0; w < windows && n > 0; w++ {
+		var seq []seqItem
+		ln := 2 + r.Intn(4)
+		base := r.Intn(n)
+		for len(seq) < ln {
+			i := r.Intn(n)
+			if r.Intn(3) == 0 { // a neighbour: a similar input (same generator, often a shared start)
+				i = (base + len(seq)) % n
+			}
+			it := seqItem{input(i), pickMode()}
+			if len(seq) == 0 {
+				it.mode = "01"[r.Intn(2)] // the first result kept is a ReadImports one
+			}
+			seq = append(seq, it)
+		}
+		lanes := 0
+		if w%4 == 0 {
+			lanes = 2 + r.Intn(3)
+			res.Distribution["history-sequences-with-concurrent-lanes"]++
+			res.Distribution["history-concurrent-lanes"] += lanes
+		}
+		for _, it := range seq {
+			if it.mode == 'c' {
+				res.Distribution["history-readcomments-items"]++
+			} else {
+				res.Distribution["history-readimports-items"]++
+			}
+		}
+		res.Distribution["history-sequences"]++
+		res.Distribution["history-results-kept-and-rechecked"] += historyPasses * len(seq) * (1 + lanes)
+		historyOracle(res, seq, lanes, true)
+	}
+	// long range: results of the comparison calls, after everything else this run did
+	res.Distribution["history-long-range-results-kept"] = len(longKept)
+	nbad := 0
+	for i := range longKept {
+		k := &longKept[i]
+		ch := k.changed()
+		if ch == "" {
+			continue
+		}
+		if nbad++; nbad > 3 {
+			break
+		}
+		res.OracleChecked["C18"]++
+		seq := []seqItem{k.item}
+		for j := 1; j <= 2 && k.pos+j < n; j++ {
+			seq = append(seq, seqItem{input(k.pos + j), '0'}, seqItem{input(k.pos + j), '1'})
+		}
+		if historyOracle(res, seq, 0, true) { // the short sequence does not reproduce it: report what was seen
+			res.Violate("C18", seqCase(seq, 0), fmt.Sprintf("result of ReadImports on item #0, kept since the comparison run (input %d of %d), changed by the end of the run: %s (the short sequence given here did not reproduce it in-process)", k.pos, n, ch), "result-aliased")
+		}
+	}
+}
+
+// commentAttached: a comment opener directly after an identifier/keyword byte or a closing quote.
+func commentAttached(d []byte) bool {
+	for i := 1; i+1 < len(d); i++ {
+		if d[i] == '/' && (d[i+1] == '/' || d[i+1] == '*') {
+			if c := d[i-1]; isWordByte(c) || c == '"' || c == '`' {
+				return true
+			}
+		}
+	}
+	return false
+}
+
+func isWordByte(c byte) bool {
+	return c >= 'a' && c <= 'z' || c >= 'A' && c <= 'Z' || c >= '0' && c <= '9' || c == '_' || c >= 0x80
 }
 
 func runC18(res *corr.Result, r *rand.Rand, tier, model string) int {
@@ -1381,11 +1764,20 @@ func runC18(res *corr.Result, r *rand.Rand, tier, model string) int {
 		return 0
 	}
 	nontrivial := 0
+	var longKept []keptRead // long-range history: results of the comparison calls themselves, looked at again at the very end
 	for i, c := range cs {
 		for k, report := range []bool{false, true} {
-			impl := implRead(c.d, report).line()
+			rr := implRead(c.d, report)
+			impl := rr.line()
 			if impl != out[2*i+k] {
 				res.DisagreeFor(p18, cases[2*i+k], impl, out[2*i+k])
+			}
+			if i%8 == 3*k && rr.panicked == "" && len(rr.buf) > 0 {
+				kr := keptRead{pos: i, item: seqItem{c.d, "01"[k]}, buf: rr.buf, bufCopy: append([]byte(nil), rr.buf...), imps: rr.imps, errKind: errKind(rr.err)}
+				for _, s := range rr.imps {
+					kr.impsCopy = append(kr.impsCopy, cloneStr(s))
+				}
+				longKept = append(longKept, kr)
 			}
 		}
 		if readOracle(res, c.d, c.want, c.valid) {
@@ -1397,12 +1789,22 @@ func runC18(res *corr.Result, r *rand.Rand, tier, model string) int {
 				res.Distribution["read-generated-valid-with-bom"]++
 			}
 			res.Distribution[fmt.Sprintf("read-generated-imports=%d", min(len(c.want), 5))]++
+			if bytes.IndexByte(c.d, 0x80) >= 0 {
+				res.Distribution["read-generated-valid-with-0x80-byte(identifier/comment/path)"]++
+			}
+			if bytes.Contains(c.d, []byte("**/")) {
+				res.Distribution["read-generated-valid-block-comment-ending-in-star-run"]++
+			}
+			if commentAttached(c.d) {
+				res.Distribution["read-generated-valid-comment-attached-to-word-or-literal"]++
+			}
 		}
 		if i%50 == 0 && len(c.d) > 0 {
 			ioErrOracle(res, c.d, r.Intn(len(c.d)+1))
 		}
 	}
 	res.Evaluations += len(cases)
+	runHistory(res, r, tier, len(cs), func(i int) []byte { return cs[i].d }, longKept)
 	res.Distribution["read-inputs"] = len(cs)
 	res.Distribution["read-token-sequences-enumerated"] = nEnum
 	if es, ok := res.Extra["exhaustive_spaces"].([]string); ok {
@@ -1418,6 +1820,15 @@ func runC18(res *corr.Result, r *rand.Rand, tier, model string) int {
 
 // replayOne runs a single case line (as stored in Violation.Input / Disagreement.Case).
 func replayOne(res *corr.Result, model, c string) {
+	if strings.HasPrefix(c, "readseq ") { // history oracle: implementation only, the model has no storage to alias
+		seq, lanes, ok := decSeqCase(c)
+		if !ok || len(seq) == 0 {
+			res.DisagreeFor(p18, c, "", "replay: malformed readseq case")
+			return
+		}
+		historyOracle(res, seq, lanes, false)
+		return
+	}
 	f := strings.Split(c, " ")
 	out, err := mdl.Run(model, nil, []string{c}, 1)
 	if err != nil || len(f) != 3 {
@@ -1466,6 +1877,8 @@ func runImports(tier string, seed int64, model string, replay string) *corr.Resu
 	res.Extra["nontrivial_C18"] = n18
 	res.Rule = "C19: (name, tag set) pairs whose name has a suffix that makes MatchFile false for at least one tag set, and (content, tag set) pairs whose leading block holds at least one +build line; " +
 		"C18: distinct inputs that are generated valid headers / fully valid Go files (go/parser consulted) or raise a syntax error (whole-input clause exercised). " +
-		"Every case is run on implementation and Lean model and compared (MatchFile/ShouldBuild verdicts; ReadImports imports, returned bytes, error kind, for both reportSyntaxError values)"
+		"Every case is run on implementation and Lean model and compared (MatchFile/ShouldBuild verdicts; ReadImports imports, returned bytes, error kind, for both reportSyntaxError values). " +
+		"History oracle (counted in evaluations, not in distinct_nontrivial): sequences of 2-5 ReadImports/ReadComments calls on inputs of this run are executed with every returned slice and import list kept uncopied next to a private copy; " +
+		"after the later calls of the sequence, and again while 2-4 goroutines run the same calls concurrently, the kept results must equal their copies (class result-aliased) and the concurrent results the sequential ones (class concurrent-result-differs); results of every 8th comparison call are kept to the end of the run as well"
 	return res
 }
